@@ -391,3 +391,272 @@ Lemma temporal_outside_guard_refuted :
   /\ (let l := [49;50;58;48;48;58;48;48;46;49;50;51;52;53;54;55] in
       xsd_tvalue TTime l <> None /\ t_val (tconstruct TTime l true) = Some (VTime 12 0 0 123456 None)).
 Proof. vm_compute. repeat split; discriminate. Qed.
+
+(* ================================================================== *)
+(* every valid form inside the guard is read with the XSD value *)
+
+Lemma dec_value_cons : forall c r, dec_value (c :: r) = (c - 48) * 10 ^ N.of_nat (length r) + dec_value r.
+Proof. intros c r. change (c :: r) with ([c] ++ r). rewrite dec_value_app2. unfold dec_value at 1. cbn [fold_left]. lia. Qed.
+
+Lemma dec_value_bound : forall l, forallb is_dig l = true -> dec_value l < 10 ^ N.of_nat (length l).
+Proof.
+  induction l as [|c r IH]; intro H; [cbn; lia|].
+  cbn [forallb] in H. apply andb_true_iff in H. destruct H as [Hc Hr]. apply is_dig_range in Hc.
+  rewrite dec_value_cons. cbn [length]. rewrite Nat2N.inj_succ, N.pow_succ_r'. specialize (IH Hr). nia.
+Qed.
+
+Lemma frac_digits6 : forall f, forallb is_dig f = true ->
+  forallb is_dig (firstn 6 (f ++ zeros 6)) = true /\ length (firstn 6 (f ++ zeros 6)) = 6%nat.
+Proof.
+  intros f H. split.
+  - assert (A : forallb is_dig (f ++ zeros 6) = true) by (rewrite forallb_app, H; reflexivity).
+    rewrite <- (firstn_skipn 6 (f ++ zeros 6)), forallb_app in A. apply andb_true_iff in A. tauto.
+  - apply firstn_length_le. rewrite app_length. cbn. lia.
+Qed.
+
+Lemma frac_us_bound : forall fd, (match fd with Some f => forallb is_dig f = true | None => True end) -> frac_us fd < 1000000.
+Proof.
+  intros [f|] H; [|cbn; lia]. unfold frac_us. destruct (frac_digits6 f H) as [D L].
+  pose proof (dec_value_bound _ D) as B. rewrite L in B. exact B.
+Qed.
+
+Lemma frac_guard : forall fd u, frac_exact (frac_of fd) = Some u -> frac_us fd = u.
+Proof.
+  intros [f|] u H; unfold frac_exact, frac_of in H.
+  - destruct (all_zero (skipn 6 f)); inversion H. reflexivity.
+  - cbn in H. inversion H. reflexivity.
+Qed.
+
+(* inversion of the shapes: the digit strings are digits *)
+Lemma shape_hms_digits : forall l h mi s fd rest, shape_hms l = Some (h, mi, s, fd, rest) ->
+  match fd with Some f => forallb is_dig f = true | None => True end.
+Proof.
+  intros l h mi s fd rest H. unfold shape_hms in H.
+  destruct (take2 l) as [[h' r1]|]; [|discriminate]. destruct (expect 58 r1) as [r2|]; [|discriminate].
+  destruct (take2 r2) as [[mi' r3]|]; [|discriminate]. destruct (expect 58 r3) as [r4|]; [|discriminate].
+  destruct (take2 r4) as [[s' r5]|]; [|discriminate].
+  destruct r5 as [|c r6]; [inversion H; exact I|].
+  destruct (c =? 46); [|inversion H; exact I].
+  destruct (span_digits r6) as [f r7] eqn:S. destruct (is_nil f); [discriminate|]. inversion H; subst.
+  apply (span_digits_spec _ _ _ S).
+Qed.
+
+Lemma shape_ymd_digits : forall l neg yd m d rest, shape_ymd l = Some (neg, yd, m, d, rest) ->
+  forallb is_dig yd = true /\ (4 <= length yd)%nat.
+Proof.
+  intros l neg yd m d rest H. unfold shape_ymd in H.
+  destruct (match l with [] => (false, l) | c :: r => if c =? 45 then (true, r) else (false, l) end) as [ng b].
+  destruct (span_digits b) as [y r1] eqn:S. destruct (length y <? 4)%nat eqn:L; [discriminate|].
+  destruct (expect 45 r1) as [r2|]; [|discriminate]. destruct (take2 r2) as [[m' r3]|]; [|discriminate].
+  destruct (expect 45 r3) as [r4|]; [|discriminate]. destruct (take2 r4) as [[d' r5]|]; [|discriminate].
+  inversion H; subst. split; [apply (span_digits_spec _ _ _ S)|]. apply Nat.ltb_ge in L. exact L.
+Qed.
+
+(* the date part under the guard *)
+Lemma date_guard : forall neg yd m d y m' d', forallb is_dig yd = true -> (4 <= length yd)%nat ->
+  xsd_ymd neg yd m d = Some (y, m', d') -> year_ok y = true ->
+  exists y0, py_date_ok neg yd m d = Some (y0, m, d) /\ y = Z.of_N y0 /\ m' = m /\ d' = d
+    /\ (1 <=? y0) && (y0 <=? 9999) && (1 <=? m) && (m <=? 12) && (1 <=? d) && (d <=? days_in_month y0 m) = true.
+Proof.
+  intros neg yd m d y m' d' D L H G. unfold xsd_ymd, xsd_year in H.
+  destruct yd as [|c r]; [cbn in L; lia|].
+  set (y0 := dec_value (c :: r)) in *.
+  destruct (((length (c :: r) =? 4)%nat || negb (c =? 48)) && negb (neg && (y0 =? 0))) eqn:OK; [|discriminate].
+  apply andb_true_iff in OK. destruct OK as [OK1 OK2].
+  destruct ((1 <=? m) && (m <=? 12) && (1 <=? d) && (d <=? xsd_days_in_month (if neg then (- Z.of_N y0)%Z else Z.of_N y0) m)) eqn:R;
+    [|discriminate].
+  inversion H; subst y m' d'; clear H.
+  unfold year_ok in G. apply andb_true_iff in G. destruct G as [G1 G2]. apply Z.leb_le in G1, G2.
+  destruct neg; [lia|].
+  assert (L4 : length (c :: r) = 4%nat).
+  { destruct (Nat.eqb_spec (length (c :: r)) 4) as [E|NE]; [exact E|]. cbn [orb] in OK1. apply negb_true_iff in OK1.
+    apply N.eqb_neq in OK1. cbn [forallb] in D. apply andb_true_iff in D. destruct D as [Dc _]. apply is_dig_range in Dc.
+    exfalso. unfold y0 in G2. rewrite dec_value_cons in G2. cbn [length] in L, NE.
+    assert (P : 10 ^ 4 <= 10 ^ N.of_nat (length r)) by (apply N.pow_le_mono_r; lia).
+    change (10 ^ 4) with 10000 in P. nia. }
+  exists y0. rewrite xsd_days_eq in R. split_andb R.
+  unfold py_date_ok. fold y0. rewrite L4. cbn [orb negb Nat.eqb].
+  assert (Y1 : (1 <=? y0) = true) by (apply N.leb_le; lia). assert (Y2 : (y0 <=? 9999) = true) by (apply N.leb_le; lia).
+  rewrite Y1, R, R2, R1, R0. cbn [andb]. repeat split; rewrite ?Y2; reflexivity.
+Qed.
+
+Lemma hms_guard : forall h mi s fd, xsd_hms_ok h mi s fd = true -> (h <? 24) = true -> py_time_ok h mi s = true.
+Proof.
+  intros h mi s fd H G. unfold xsd_hms_ok in H. apply orb_true_iff in H. destruct H as [H|H]; [exact H|].
+  split_andb H. apply N.eqb_eq in H. apply N.ltb_lt in G. lia.
+Qed.
+
+Lemma tz_guard : forall t tz, xsd_tz t = Some tz -> py_tz t = Some tz /\ tz_wf tz = true.
+Proof.
+  intros [| |neg hh mm] tz H; cbn [xsd_tz py_tz] in *; try (inversion H; split; reflexivity).
+  destruct (((hh <=? 13) && (mm <=? 59)) || ((hh =? 14) && (mm =? 0))) eqn:E; [|discriminate]. inversion H; subst tz.
+  assert (B : hh * 60 + mm <= 840).
+  { apply orb_true_iff in E. destruct E as [E|E]; split_andb E;
+      [apply N.leb_le in E, E0|apply N.eqb_eq in E, E0]; lia. }
+  replace (hh * 60 + mm <? 1440) with true by (symmetry; apply N.ltb_lt; lia).
+  split; [reflexivity|]. cbn [tz_wf]. apply N.leb_le. destruct neg; rewrite ?Zabs2N.inj_opp, Zabs2N.id; exact B.
+Qed.
+
+Lemma valid_guard_parse : forall d l xv, xsd_tvalue d l = Some xv -> in_guard xv = true ->
+  exists v, py_parse d l = Some v /\ tdenotes v xv = true /\ tval_wf v = true /\ tdt_of v = d.
+Proof.
+  intros d l xv H G. destruct d; cbn [xsd_tvalue py_parse] in *.
+  - destruct (shape_ymd l) as [[[[[neg yd] m] dd] rest]|] eqn:S; [|discriminate].
+    destruct (shape_ymd_digits _ _ _ _ _ _ S) as [D L].
+    destruct (shape_tz rest) as [t|]; [|discriminate].
+    destruct (xsd_ymd neg yd m dd) as [[[y m'] d']|] eqn:X; [|discriminate].
+    destruct (xsd_tz t) as [tz|]; [|discriminate]. inversion H; subst xv. cbn [in_guard] in G. split_andb G.
+    destruct (date_guard _ _ _ _ _ _ _ D L X G) as (y0 & P & -> & -> & -> & W). rewrite P.
+    exists (VDate y0 m dd). split; [reflexivity|]. cbn [tdenotes tval_wf tdt_of]. rewrite Z.eqb_refl, !N.eqb_refl, G0, W. repeat split.
+  - destruct (shape_hms l) as [[[[[h mi] s] fd] rest]|] eqn:S; [|discriminate].
+    pose proof (shape_hms_digits _ _ _ _ _ _ S) as FD.
+    destruct (shape_tz rest) as [t|]; [|discriminate]. destruct (xsd_tz t) as [tz|] eqn:T; [|discriminate].
+    destruct (xsd_hms_ok h mi s fd) eqn:O; [|discriminate]. inversion H; subst xv. cbn [in_guard] in G. split_andb G.
+    destruct (tz_guard _ _ T) as [PT WT]. rewrite PT, (hms_guard _ _ _ _ O G).
+    destruct (frac_exact (frac_of fd)) as [u|] eqn:F; [|discriminate].
+    exists (VTime h mi s (frac_us fd) tz). split; [reflexivity|]. cbn [tdenotes tval_wf tdt_of].
+    rewrite F, (frac_guard fd u F), !N.eqb_refl, tz_eqb_refl, (hms_guard _ _ _ _ O G), WT. cbn [opt_eqb]. rewrite N.eqb_refl.
+    pose proof (frac_us_bound fd FD) as B. rewrite (frac_guard fd u F) in B.
+    replace (u <? 1000000) with true by (symmetry; apply N.ltb_lt; exact B). repeat split.
+  - destruct (shape_ymd l) as [[[[[neg yd] m] dd] rest0]|] eqn:S; [|discriminate].
+    destruct (shape_ymd_digits _ _ _ _ _ _ S) as [D L].
+    destruct rest0 as [|sep rest]; [discriminate|].
+    destruct (N.eqb_spec sep 84) as [->|NE];
+      [|exfalso; revert H; destruct sep as [|p]; try discriminate;
+        repeat (destruct p as [p|p|]; try discriminate); congruence].
+    destruct (shape_hms rest) as [[[[[h mi] s] fd] rest']|] eqn:S2; [|discriminate].
+    pose proof (shape_hms_digits _ _ _ _ _ _ S2) as FD.
+    destruct (shape_tz rest') as [t|]; [|discriminate].
+    destruct (xsd_ymd neg yd m dd) as [[[y m'] d']|] eqn:X; [|discriminate].
+    destruct (xsd_tz t) as [tz|] eqn:T; [|discriminate].
+    destruct (xsd_hms_ok h mi s fd) eqn:O; [|discriminate]. inversion H; subst xv. cbn [in_guard] in G. split_andb G.
+    destruct (date_guard _ _ _ _ _ _ _ D L X G) as (y0 & P & -> & -> & -> & W).
+    destruct (tz_guard _ _ T) as [PT WT]. rewrite P, PT, (hms_guard _ _ _ _ O G1).
+    destruct (frac_exact (frac_of fd)) as [u|] eqn:F; [|discriminate].
+    exists (VDateTime y0 m dd h mi s (frac_us fd) tz). split; [reflexivity|]. cbn [tdenotes tval_wf tdt_of].
+    rewrite F, (frac_guard fd u F), Z.eqb_refl, !N.eqb_refl, tz_eqb_refl, (hms_guard _ _ _ _ O G1), WT, W. cbn [opt_eqb]. rewrite N.eqb_refl.
+    pose proof (frac_us_bound fd FD) as B. rewrite (frac_guard fd u F) in B.
+    replace (u <? 1000000) with true by (symmetry; apply N.ltb_lt; exact B). repeat split.
+Qed.
+
+(* ------------------------------------------------------------------ *)
+(* what the readers return is a value python can build *)
+
+Lemma py_date_ok_inv : forall neg yd m d y m' d', forallb is_dig yd = true ->
+  py_date_ok neg yd m d = Some (y, m', d') ->
+  m' = m /\ d' = d /\ (1 <=? y) && (y <=? 9999) && (1 <=? m) && (m <=? 12) && (1 <=? d) && (d <=? days_in_month y m) = true.
+Proof.
+  intros neg yd m d y m' d' D H. unfold py_date_ok in H.
+  destruct (neg || negb (length yd =? 4)%nat) eqn:E; [discriminate|].
+  apply orb_false_iff in E. destruct E as [_ E]. apply negb_false_iff in E. apply Nat.eqb_eq in E.
+  destruct ((1 <=? dec_value yd) && (1 <=? m) && (m <=? 12) && (1 <=? d) && (d <=? days_in_month (dec_value yd) m)) eqn:R;
+    [|discriminate].
+  inversion H; subst. split; [reflexivity|]. split; [reflexivity|]. split_andb R.
+  pose proof (dec_value_bound yd D) as B. rewrite E in B. change (10 ^ N.of_nat 4) with 10000 in B.
+  replace (dec_value yd <=? 9999) with true by (symmetry; apply N.leb_le; lia).
+  rewrite R, R3, R2, R1, R0. reflexivity.
+Qed.
+
+Lemma py_tz_pwf : forall t tz, py_tz t = Some tz -> tz_pwf tz = true.
+Proof.
+  intros [| |neg hh mm] tz H; cbn [py_tz] in H; try (inversion H; reflexivity).
+  destruct (hh * 60 + mm <? 1440) eqn:E; [|discriminate]. inversion H; subst. cbn [tz_pwf].
+  destruct neg; rewrite ?Zabs2N.inj_opp, Zabs2N.id; exact E.
+Qed.
+
+Lemma py_parse_pwf : forall d l v, py_parse d l = Some v -> tval_pwf v = true /\ tdt_of v = d.
+Proof.
+  intros d l v H. destruct d; cbn [py_parse] in H.
+  - destruct (shape_ymd l) as [[[[[neg yd] m] dd] rest]|] eqn:S; [|discriminate].
+    destruct (shape_ymd_digits _ _ _ _ _ _ S) as [D _].
+    destruct (shape_tz rest); [|discriminate].
+    destruct (py_date_ok neg yd m dd) as [[[y m'] d']|] eqn:P; [|discriminate]. inversion H; subst v.
+    destruct (py_date_ok_inv _ _ _ _ _ _ _ D P) as (-> & -> & W). split; [exact W|reflexivity].
+  - destruct (shape_hms l) as [[[[[h mi] s] fd] rest]|] eqn:S; [|discriminate].
+    pose proof (shape_hms_digits _ _ _ _ _ _ S) as FD.
+    destruct (shape_tz rest) as [t|]; [|discriminate]. destruct (py_tz t) as [tz|] eqn:T; [|discriminate].
+    destruct (py_time_ok h mi s) eqn:O; [|discriminate]. inversion H; subst v. cbn [tval_pwf tdt_of].
+    rewrite O, (py_tz_pwf _ _ T). pose proof (frac_us_bound fd FD) as B.
+    replace (frac_us fd <? 1000000) with true by (symmetry; apply N.ltb_lt; exact B). split; reflexivity.
+  - destruct (shape_ymd l) as [[[[[neg yd] m] dd] rest0]|] eqn:S; [|discriminate].
+    destruct (shape_ymd_digits _ _ _ _ _ _ S) as [D _].
+    destruct rest0 as [|sep rest]; [discriminate|].
+    destruct (shape_hms rest) as [[[[[h mi] s] fd] rest']|] eqn:S2; [|discriminate].
+    pose proof (shape_hms_digits _ _ _ _ _ _ S2) as FD.
+    destruct (shape_tz rest') as [t|]; [|discriminate].
+    destruct (py_date_ok neg yd m dd) as [[[y m'] d']|] eqn:P; [|discriminate].
+    destruct (py_tz t) as [tz|] eqn:T; [|discriminate].
+    destruct (py_time_ok h mi s) eqn:O; [|discriminate]. inversion H; subst v. cbn [tval_pwf tdt_of].
+    destruct (py_date_ok_inv _ _ _ _ _ _ _ D P) as (-> & -> & W).
+    rewrite W, O, (py_tz_pwf _ _ T). pose proof (frac_us_bound fd FD) as B.
+    replace (frac_us fd <? 1000000) with true by (symmetry; apply N.ltb_lt; exact B). split; reflexivity.
+Qed.
+
+(* construction-time normalisation is idempotent for every form of the shape *)
+Lemma tconstruct_idem : forall d l,
+  t_lex (tconstruct d (t_lex (tconstruct d l true)) true) = t_lex (tconstruct d l true).
+Proof.
+  intros d l. rewrite (tconstruct_eq d l true). cbn [t_lex]. destruct (py_parse d l) as [v|] eqn:P.
+  - destruct (py_parse_pwf d l v P) as [W E]. pose proof (py_roundtrip v W) as R. rewrite E in R.
+    rewrite tconstruct_eq, R. reflexivity.
+  - rewrite tconstruct_eq, P. reflexivity.
+Qed.
+
+Lemma xt_same_refl : forall x, in_guard x = true -> xt_same x x = true.
+Proof.
+  destruct x; cbn [xt_same in_guard]; intro G; rewrite ?Z.eqb_refl, ?N.eqb_refl, ?tz_eqb_refl; cbn [andb];
+    try reflexivity; split_andb G; destruct (frac_exact frac); try discriminate; cbn; rewrite N.eqb_refl; reflexivity.
+Qed.
+
+Lemma xt_same_via : forall v x' xv, tval_wf v = true -> tdenotes v xv = true -> xt_same x' (xt_of v) = true ->
+  xt_same x' xv = true.
+Proof.
+  intros [y m d|h mi s us tz|y m d h mi s us tz] x' xv W Dn S;
+    destruct x' as [ay am ad atz|ah ami as_ af atz|ay am ad ah ami as_ af atz]; try discriminate;
+    destruct xv as [by_ bm bd btz|bh bmi bs bf btz|by_ bm bd bh bmi bs bf btz]; try discriminate;
+    cbn [xt_of xt_same tdenotes] in *.
+  - split_andb S. split_andb Dn. eqb_subst. rewrite Z.eqb_refl, !N.eqb_refl. cbn [andb].
+    destruct atz, btz; cbn in *; try discriminate; reflexivity.
+  - cbn [tval_wf] in W. split_andb W. apply N.ltb_lt in W1. rewrite (proj2 (frac_d6 us W1)) in S.
+    split_andb S. split_andb Dn. destruct (frac_exact af) as [u|]; [|discriminate].
+    destruct (frac_exact bf) as [w|]; [|discriminate]. cbn [opt_eqb] in *. eqb_subst. rewrite !N.eqb_refl. cbn [andb].
+    destruct atz, tz, btz; cbn in *; try discriminate; try reflexivity. eqb_subst. apply Z.eqb_refl.
+  - cbn [tval_wf] in W. split_andb W. apply N.ltb_lt in W1. rewrite (proj2 (frac_d6 us W1)) in S.
+    split_andb S. split_andb Dn. destruct (frac_exact af) as [u|]; [|discriminate].
+    destruct (frac_exact bf) as [w|]; [|discriminate]. cbn [opt_eqb] in *. eqb_subst. rewrite Z.eqb_refl, !N.eqb_refl. cbn [andb].
+    destruct atz, tz, btz; cbn in *; try discriminate; try reflexivity. eqb_subst. apply Z.eqb_refl.
+Qed.
+
+(* the tie, every case of the temporal suite *)
+Theorem tspec_ok_model : forall c, twf c = true -> tkf c = 0 -> tspec_ok c (tmodel_obs c) = true.
+Proof.
+  intros [d l norm|v] W K.
+  - cbn [tmodel_obs tspec_ok]. rewrite (tnormalize_idem d l norm), str_eqb_refl.
+    assert (R1 : forall o : option tval, opt_eqb tval_eqb o o = true) by (destruct o; [apply tval_eqb_refl|reflexivity]).
+    rewrite R1.
+    assert (E : teq_self (tconstruct d l norm) (tnormalize d (tconstruct d l norm)) = ETrue).
+    { rewrite tconstruct_eq. destruct (py_parse d l) as [v|] eqn:P.
+      - erewrite tnormalize_eq; [|reflexivity]. reflexivity.
+      - unfold tnormalize, teq_self. cbn [t_val t_lex]. rewrite str_eqb_refl. reflexivity. }
+    rewrite E. cbn [eqres_eqb].
+    assert (IT : forall b, implb' b true = true) by (destruct b; reflexivity). rewrite IT.
+    assert (C3 : implb' norm (str_eqb (t_lex (tconstruct d (t_lex (tconstruct d l norm)) true)) (t_lex (tconstruct d l norm))) = true).
+    { destruct norm; [|reflexivity]. cbn [implb']. rewrite tconstruct_idem. apply str_eqb_refl. }
+    rewrite C3, !andb_true_r.
+    destruct (xsd_tvalue d l) as [xv|] eqn:V; [|reflexivity].
+    cbn [tkf] in K. rewrite V in K. destruct (in_guard xv) eqn:G; [|discriminate].
+    destruct (valid_guard_parse d l xv V G) as (v & P & Dn & Wv & Ed). subst d.
+    destruct (temporal_faithful_all v Wv) as (R & (x' & X1 & X2 & X3 & X4) & C & N).
+    assert (X5 : xt_same x' xv = true) by (apply (xt_same_via v); assumption).
+    assert (Hx : tconstruct (tdt_of v) l norm =
+                 {| t_lex := if norm then py_print v else l; t_ill := Some false; t_val := Some v |})
+      by (rewrite tconstruct_eq, P; reflexivity).
+    rewrite Hx. erewrite tnormalize_eq; [|reflexivity]. cbn [t_lex t_val t_ill].
+    assert (Hre : tconstruct (tdt_of v) (if norm then py_print v else l) true =
+                  {| t_lex := py_print v; t_ill := Some false; t_val := Some v |})
+      by (destruct norm; [apply C|rewrite tconstruct_eq, P; reflexivity]).
+    rewrite Hre. unfold tvalid_ok, tval_is, tlex_is. cbn [t_lex t_val t_ill]. rewrite Dn, X1, X5.
+    destruct norm; cbn [orb]; [rewrite X1, X5; reflexivity|].
+    rewrite V, (xt_same_refl xv G), str_eqb_refl. reflexivity.
+  - apply tspec_ok_model_partial. exact W.
+Qed.
